@@ -1,6 +1,7 @@
 //! C14 harness: decision trees fitted on generated labelled datasets; dumps the fitted tree through
 //! the public API (root_node / children / split / prediction / depth / iter_nodes / importances /
-//! predict) and emits Coq cases for C14/Corr.v (bit-exact fit model for two-class Gini trees,
+//! predict) and emits Coq cases for C14/Corr.v (bit-exact fit model for Gini and entropy trees of
+//! 2..6 classes - entropy with the run time's `f32::log2` values passed as a checked table -,
 //! prediction / importance / iteration models for all trees, exact checker `chk_tree` as oracle).
 use linfa::prelude::*;
 use linfa::{Dataset, Label};
@@ -63,12 +64,15 @@ fn arr<F: linfa::Float>(rows: &[Vec<f64>], d: usize) -> Array2<F> {
     Array2::from_shape_vec((rows.len(), d), rows.iter().flatten().map(|v| F::cast(*v)).collect()).unwrap()
 }
 
-/// fit + dump for one label type; `to_l` maps a class index to the label (monotone w.r.t. Ord)
+/// fit + dump for one label type; `to_l` is any injective map from 0..ncls to labels. The class
+/// index used everywhere else (y, Coq cases, predictions) is the rank of the label in the `Ord` of
+/// the label type: class c carries the c-th smallest of the ncls labels.
 fn run_typed<F: linfa::Float, L: Label + std::fmt::Debug + Default + 'static>(
     x: &[Vec<f64>], d: usize, y: &[usize], w: &Option<Vec<f32>>, p: &Params, q: &[Vec<f64>], ncls: usize, to_l: fn(usize) -> L,
 ) -> Result<Dump, String> {
-    let classes: Vec<L> = (0..ncls).map(to_l).collect();
-    let targets: Array1<L> = y.iter().map(|&c| to_l(c)).collect();
+    let mut classes: Vec<L> = (0..ncls).map(to_l).collect();
+    classes.sort();
+    let targets: Array1<L> = y.iter().map(|&c| classes[c].clone()).collect();
     let mut ds = Dataset::new(arr::<F>(x, d), targets);
     if let Some(w) = w { ds = ds.with_weights(Array1::from(w.clone())); }
     let params = DecisionTree::<F, L>::params()
@@ -103,6 +107,10 @@ fn l_usize(c: usize) -> usize { c }
 fn l_usize_off(c: usize) -> usize { 10 * c + 3 }
 fn l_bool(c: usize) -> bool { c != 0 }
 fn l_string(c: usize) -> String { ["ant", "bee", "cat", "dog", "eel", "fox", "gnu", "hen"][c].to_string() }
+// decimal strings: the Ord of String is lexicographic ("10" < "100" < "11" < "12" < "8" < "9"), not numeric
+fn l_numstring(c: usize) -> String { ["8", "9", "10", "11", "12", "100", "7", "70"][c].to_string() }
+// Option<usize>: None is the smallest label, the others in decreasing numeric order of construction
+fn l_option(c: usize) -> Option<usize> { if c == 2 { None } else { Some(100 - 7 * c) } }
 
 fn run(lt: u64, x: &[Vec<f64>], d: usize, y: &[usize], w: &Option<Vec<f32>>, p: &Params, q: &[Vec<f64>], ncls: usize) -> Result<Dump, String> {
     let (x2, y2, w2, p2, q2) = (x.to_vec(), y.to_vec(), w.clone(), p.clone(), q.to_vec());
@@ -111,6 +119,8 @@ fn run(lt: u64, x: &[Vec<f64>], d: usize, y: &[usize], w: &Option<Vec<f32>>, p: 
         1 => run_typed::<f64, usize>(&x2, d, &y2, &w2, &p2, &q2, ncls, l_usize_off),
         2 => run_typed::<f64, bool>(&x2, d, &y2, &w2, &p2, &q2, ncls, l_bool),
         3 => run_typed::<f64, String>(&x2, d, &y2, &w2, &p2, &q2, ncls, l_string),
+        5 => run_typed::<f64, String>(&x2, d, &y2, &w2, &p2, &q2, ncls, l_numstring),
+        6 => run_typed::<f64, Option<usize>>(&x2, d, &y2, &w2, &p2, &q2, ncls, l_option),
         // 4: f32 features (label type usize)
         _ => run_typed::<f32, usize>(&x2, d, &y2, &w2, &p2, &q2, ncls, l_usize),
     }) {
@@ -168,6 +178,125 @@ fn entropy_check(t: &Tr, le: bool, rows: &[usize], x: &[Vec<f64>], y: &[usize], 
         entropy_check(l, le, &sl, x, y, w, ncls, worst);
         entropy_check(r, le, &sr, x, y, w, ncls, worst);
     }
+}
+
+/// Shadow implementation of `TreeNode::fit` + `prune` (f32 scores; the class weights summed in
+/// ascending class order, or in descending order when `desc` is set). It is NOT part of the check
+/// and not trusted. It serves two purposes: (a) it collects the arguments on which the fit calls
+/// `f32::log2`, together with the values the run time returns (the oracle table of the Coq model of
+/// the entropy criterion: a missing argument poisons the model's score and shows up as a tree
+/// difference, every entry is checked in Coq against a verified enclosure of the logarithm);
+/// (b) it tells for how many cases another summation order would have changed the fitted tree.
+struct Shadow<'a, F: linfa::Float> {
+    x: &'a [Vec<F>], y: &'a [usize], w: &'a [f32], ncls: usize,
+    entropy: bool, max_depth: Option<usize>, mws: f32, mwl: f32, mid: F,
+    desc: bool,
+    sorted: Vec<Vec<(usize, F)>>,
+    log2: std::collections::BTreeMap<u32, u32>,
+}
+
+enum Sh<F> { Leaf { d: usize, p: usize }, Node { d: usize, f: usize, thr: F, dec: F, l: Box<Sh<F>>, r: Box<Sh<F>> } }
+
+impl<'a, F: linfa::Float> Shadow<'a, F> {
+    fn vals(&self, tab: &[Option<f32>]) -> Vec<f32> {
+        let mut v: Vec<f32> = tab.iter().filter_map(|e| *e).collect();
+        if self.desc { v.reverse(); }
+        v
+    }
+    fn impurity(&mut self, tab: &[Option<f32>]) -> f32 {
+        let v = self.vals(tab);
+        let n = v.iter().sum::<f32>();
+        if self.entropy {
+            let mut terms = Vec::new();
+            for x in v.iter().map(|x| x / n) {
+                terms.push(if x > 0.0 { let l = x.log2(); self.log2.insert(x.to_bits(), l.to_bits()); -x * l } else { 0.0 });
+            }
+            terms.into_iter().sum()
+        } else {
+            1.0 - v.iter().map(|x| x / n).map(|x| x * x).sum::<f32>()
+        }
+    }
+    fn node(&mut self, mask: &[bool], depth: usize) -> Sh<F> {
+        let n = mask.len();
+        let mut parent: Vec<Option<f32>> = vec![None; self.ncls];
+        for i in 0..n { if mask[i] { let e = parent[self.y[i]].get_or_insert(0.0); *e += self.w[i]; } }
+        // modal class: largest frequency, smallest class among equals
+        let mut pred = 0usize;
+        let mut bestf: Option<f32> = None;
+        for c in 0..self.ncls { if let Some(fr) = parent[c] { if bestf.map_or(true, |b| fr > b) { bestf = Some(fr); pred = c; } } }
+        let ns = mask.iter().filter(|m| **m).count();
+        if (ns as f32) < self.mws || self.max_depth.map_or(false, |m| depth >= m) { return Sh::Leaf { d: depth, p: pred }; }
+        let mut best: Option<(usize, F, f32)> = None;
+        for f in 0..self.sorted.len() {
+            let mut right = parent.clone();
+            let mut left: Vec<Option<f32>> = vec![None; self.ncls];
+            let total = self.vals(&parent).iter().sum::<f32>();
+            let mut wr = total;
+            let mut wl = 0.0f32;
+            for i in 0..n.saturating_sub(1) {
+                let (idx, mut sv) = self.sorted[f][i];
+                if !mask[idx] { continue; }
+                let (c, w) = (self.y[idx], self.w[idx]);
+                *right[c].as_mut().unwrap() -= w;
+                wr -= w;
+                *left[c].get_or_insert(0.0) += w;
+                wl += w;
+                let next = self.sorted[f][i + 1].1;
+                if (sv - next).abs() < F::cast(1e-5) { continue; }
+                if wr < self.mwl || wl < self.mwl { continue; }
+                let (ls, rs) = (self.impurity(&right), self.impurity(&left));
+                let wf = wr / total;
+                let score = wf * ls + (1.0 - wf) * rs;
+                let mid = (sv + next) / F::cast(2.0);
+                if mid < next { sv = mid; }
+                best = match best.take() {
+                    None => Some((f, sv, score)),
+                    Some((_, _, bs)) if score < bs => Some((f, sv, score)),
+                    b => b,
+                };
+            }
+        }
+        let dec = if let Some((_, _, bs)) = best { F::cast(self.impurity(&parent)) - F::cast(bs) } else { F::zero() };
+        if dec < self.mid { return Sh::Leaf { d: depth, p: pred }; }
+        let (bf, thr, _) = best.unwrap();
+        let lm: Vec<bool> = (0..n).map(|i| mask[i] && self.x[i][bf] <= thr).collect();
+        let rm: Vec<bool> = (0..n).map(|i| mask[i] && !(self.x[i][bf] <= thr)).collect();
+        if !lm.iter().any(|m| *m) || !rm.iter().any(|m| *m) { return Sh::Leaf { d: depth, p: pred }; }
+        let l = self.node(&lm, depth + 1);
+        let r = self.node(&rm, depth + 1);
+        Sh::Node { d: depth, f: bf, thr, dec, l: Box::new(l), r: Box::new(r) }
+    }
+}
+
+fn sh_prune<F: linfa::Float>(t: Sh<F>) -> (Tr, Option<usize>) {
+    match t {
+        Sh::Leaf { d, p } => (Tr::Leaf { d, p }, Some(p)),
+        Sh::Node { d, f, thr, dec, l, r } => {
+            let (l2, pl) = sh_prune(*l);
+            let (r2, pr) = sh_prune(*r);
+            match (pl, pr) {
+                (Some(a), Some(b)) if a == b => (Tr::Leaf { d, p: a }, Some(a)),
+                _ => (Tr::Node { d, f, thr: thr.to_f64().unwrap(), dec: dec.to_f64().unwrap(), l: Box::new(l2), r: Box::new(r2) }, None),
+            }
+        }
+    }
+}
+
+/// (shadow tree, log2 table); `None` when the shadow itself panics
+fn shadow_fit<F: linfa::Float>(x: &[Vec<f64>], y: &[usize], w: &[f32], ncls: usize, p: &Params, desc: bool) -> Option<(Tr, Vec<(u32, u32)>)> {
+    let xf: Vec<Vec<F>> = x.iter().map(|r| r.iter().map(|v| F::cast(*v)).collect()).collect();
+    let (y2, w2, p2) = (y.to_vec(), w.to_vec(), p.clone());
+    guarded(std::panic::AssertUnwindSafe(move || {
+        let d = xf.first().map_or(0, |r| r.len());
+        let sorted: Vec<Vec<(usize, F)>> = (0..d).map(|j| {
+            let mut pairs: Vec<(usize, F)> = xf.iter().map(|r| r[j]).enumerate().collect();
+            pairs.sort_by(|a, b| a.1.partial_cmp(&b.1).unwrap_or(std::cmp::Ordering::Greater));
+            pairs
+        }).collect();
+        let mut sh = Shadow { x: &xf, y: &y2, w: &w2, ncls, entropy: p2.entropy, max_depth: p2.max_depth, mws: p2.mws, mwl: p2.mwl, mid: F::cast(p2.mid), desc, sorted, log2: Default::default() };
+        let t = sh.node(&vec![true; xf.len()], 0);
+        (sh_prune(t).0, sh.log2.iter().map(|(a, b)| (*a, *b)).collect::<Vec<_>>())
+    })).ok()
 }
 
 struct Spec { x: Vec<Vec<f64>>, d: usize, y: Vec<usize>, ncls: usize, w: Option<Vec<f32>>, p: Params, lt: u64, stream: &'static str, kind: String, extra_tags: Vec<String> }
@@ -299,7 +428,7 @@ fn main() {
         }
     }
 
-    // ---- stream B: structured random, two classes, Gini: the fit is reproducible bit for bit
+    // ---- stream B: structured random, two classes, Gini
     let nb = if thorough { 1500 } else { 260 };
     for _ in 0..nb {
         let mut r = rng.fork();
@@ -313,7 +442,7 @@ fn main() {
         specs.push(Spec { x, d, y, ncls: 2, w, p, lt, stream: "B_two_class_gini", kind: format!("kind_{}", kind), extra_tags: vec![wt.into()] });
     }
 
-    // ---- stream C: 2..6 classes, both criteria, all label types (checker + prediction/importance models)
+    // ---- stream C: 2..6 classes, both criteria, all label types
     let nc = if thorough { 1500 } else { 260 };
     for _ in 0..nc {
         let mut r = rng.fork();
@@ -325,7 +454,7 @@ fn main() {
         let (w, wt) = pick_weights(&mut r, n);
         let ent = r.chance(0.5);
         let p = pick_params(&mut r, n, ent);
-        let lt = if ncls == 2 { r.below(4) } else { *r.pick(&[0u64, 1, 3]) };
+        let lt = if ncls == 2 { *r.pick(&[0u64, 1, 2, 3, 5, 6]) } else { *r.pick(&[0u64, 1, 3, 3, 5, 6]) };
         specs.push(Spec { x, d, y, ncls, w, p, lt, stream: "C_multi_class", kind: format!("kind_{}", kind), extra_tags: vec![wt.into()] });
     }
 
@@ -393,6 +522,28 @@ fn main() {
         specs.push(Spec { x, d, y, ncls, w, p, lt: 4, stream: "E_f32_features", kind, extra_tags: extra });
     }
 
+    // ---- stream F: 3..6 classes with sample weights that are NOT dyadic (random 24-bit mantissas in
+    //      [0.5, 2)): the f32 sums of class weights round, so the fitted tree depends on the order in
+    //      which the classes are summed and on the order of the running sums. min_weight_leaf is far
+    //      below every weight, so the exact checker and the f32 code agree on the weight limits.
+    let nf = if thorough { 400 } else { 80 };
+    for _ in 0..nf {
+        let mut r = rng.fork();
+        let n = 4 + r.below(if thorough { 36 } else { 22 }) as usize;
+        let d = 1 + r.below(3) as usize;
+        let ncls = 3 + r.below(4) as usize;
+        let kind = r.below(6);
+        let (x, y) = gen_data(&mut r, n, d, ncls, kind);
+        let w: Vec<f32> = (0..n).map(|_| f32::from_bits(0x3f00_0000 + (r.below(1 << 24) as u32))).collect();
+        let ent = r.chance(0.4);
+        let mut p = pick_params(&mut r, n, ent);
+        p.mwl = 0.001;
+        let lt = *r.pick(&[0u64, 1, 3, 5, 6, 4]);
+        if lt == 4 { p.mid = (p.mid.max(2e-7) as f32) as f64; }
+        let x = if lt == 4 { x.iter().map(|row| row.iter().map(|v| (*v as f32) as f64).collect()).collect() } else { x };
+        specs.push(Spec { x, d, y, ncls, w: Some(w), p, lt, stream: "F_rounding_weights", kind: format!("kind_{}", kind), extra_tags: vec!["weights_full_mantissa".into()] });
+    }
+
     // ---- crash isolation: a stack overflow or abort inside the library cannot be caught in-process.
     //      A child process (`--dry`) runs every fit first; the ids at which it dies are observations.
     if args.extra.iter().any(|a| a == "--dry") {
@@ -457,7 +608,7 @@ fn main() {
         let res = run(s.lt, &s.x, s.d, &s.y, &s.w, &s.p, &q, s.ncls);
         let wts: Vec<f32> = s.w.clone().unwrap_or_else(|| vec![1.0; n]);
         let crit = if s.p.entropy { "crit_entropy" } else { "crit_gini" };
-        let ltname = ["label_usize", "label_usize_offset", "label_bool", "label_string", "label_usize_features_f32"][s.lt as usize];
+        let ltname = ["label_usize", "label_usize_offset", "label_bool", "label_string", "label_usize_features_f32", "label_numeric_string", "label_option_usize"][s.lt as usize];
         let mut tags: Vec<String> = vec![format!("stream_{}", s.stream), crit.into(), ltname.into(), format!("ncls_{}", s.ncls), s.kind.clone()];
         tags.extend(s.extra_tags.iter().cloned());
         let tagrefs: Vec<&str> = tags.iter().map(|t| t.as_str()).collect();
@@ -490,12 +641,9 @@ fn main() {
                 // the two fits of the same data must agree (queries do not influence the fit)
                 if let Ok(f0) = &first {
                     if tree_term(&f0.tree) != tree_term(&f.tree) {
-                        if s.ncls == 2 {
-                            out.rust_fail(id, 32768, &tagrefs, "two fits of the same two-class dataset with the same parameters returned different trees", &desc);
-                        } else {
-                            // f32 sums over hash-map values are order dependent for >= 3 classes: a matter of C20, counted only
-                            out.bump(if shape_term(&f0.tree) != shape_term(&f.tree) { "multiclass_refit_differs_in_structure" } else { "multiclass_refit_differs_in_decrease_bits" });
-                        }
+                        // since commit 46699a6 no f32 sum runs in hash-map order any more: every refit must agree
+                        out.bump(if shape_term(&f0.tree) != shape_term(&f.tree) { "refit_differs_in_structure" } else { "refit_differs_in_decrease_bits" });
+                        out.rust_fail(id, 32768, &tagrefs, "two fits of the same dataset with the same parameters returned different trees", &desc);
                     }
                 }
                 let splits = nsplits(&f.tree);
@@ -509,12 +657,44 @@ fn main() {
                     }
                     if worst > worst_entropy && worst <= 3.814697265625e-6 { worst_entropy = worst; }
                 }
-                let model = s.ncls == 2 && !s.p.entropy;
+                // the model of fit runs for every tree; for the entropy criterion it needs the values of
+                // f32::log2 (collected by the shadow implementation, checked in Coq)
+                let no_entropy_model = args.extra.iter().any(|a| a == "--no-entropy-model");
+                let model = !(s.p.entropy && no_entropy_model);
+                let sh = |desc: bool| if s.lt == 4 { shadow_fit::<f32>(&s.x, &s.y, &wts, s.ncls, &s.p, desc) } else { shadow_fit::<f64>(&s.x, &s.y, &wts, s.ncls, &s.p, desc) };
+                let asc = sh(false);
+                let mut log2tab: Vec<(u32, u32)> = Vec::new();
+                match &asc {
+                    Some((t, tab)) => {
+                        if tree_term(t) != tree_term(&f.tree) { out.bump("shadow_differs_from_library"); }
+                        if model && s.p.entropy { log2tab = tab.clone(); }
+                        if s.ncls > 2 && splits > 0 {
+                            if let Some((t2, _)) = sh(true) {
+                                if tree_term(&t2) != tree_term(t) {
+                                    out.bump(if shape_term(&t2) != shape_term(t) { "class_order_sensitive_structure" } else { "class_order_sensitive_bits" });
+                                    out.bump(&format!("class_order_sensitive_{}", ltname));
+                                }
+                            }
+                        }
+                    }
+                    None => out.bump("shadow_panicked"),
+                }
+                if model { out.bump(if s.p.entropy { "fit_model_entropy" } else { "fit_model_gini" }); }
+                if model && s.ncls > 2 { out.bump(&format!("fit_model_multiclass_{}", ltname)); }
+                if model && s.ncls > 2 && splits > 0 { out.bump(if s.p.entropy { "fit_model_multiclass_entropy_with_split" } else { "fit_model_multiclass_gini_with_split" }); }
+                out.bump_by("log2_table_entries", log2tab.len() as u64);
+                {
+                    // first-seen order of the classes (= insertion order of the hash map) vs their Ord
+                    let mut seen: Vec<usize> = Vec::new();
+                    for c in &s.y { if !seen.contains(c) { seen.push(*c); } }
+                    if seen.windows(2).any(|p| p[0] > p[1]) { out.bump("first_seen_class_order_differs_from_ord"); }
+                }
                 let coq = format!(
-                    "{{| c_id := {}%N; c_X := {}; c_y := {}; c_w := {}; c_ncls := {}%N; c_nfeat := {}%N; c_entropy := {}; c_maxdepth := {}; c_mws := {}; c_mwl := {}; c_mid := {}; c_eps := {}; c_f32 := {}; c_le := {}; c_model := {}; c_tree := {}; c_dangling := {}%N; c_iter := {}; c_maxd := {}%N; c_nleaves := {}%N; c_mean := {}; c_importance := {}; c_query := {}; c_pred := {} |}}",
+                    "{{| c_id := {}%N; c_X := {}; c_y := {}; c_w := {}; c_ncls := {}%N; c_nfeat := {}%N; c_entropy := {}; c_maxdepth := {}; c_mws := {}; c_mwl := {}; c_mid := {}; c_eps := {}; c_f32 := {}; c_le := {}; c_model := {}; c_log2 := {}; c_tree := {}; c_dangling := {}%N; c_iter := {}; c_maxd := {}%N; c_nleaves := {}%N; c_mean := {}; c_importance := {}; c_query := {}; c_pred := {} |}}",
                     id, cmat64(&s.x), cvecn(&s.y), cvec64(&wts.iter().map(|v| *v as f64).collect::<Vec<f64>>()), s.ncls, s.d,
                     cbool(s.p.entropy), s.p.max_depth.map_or("None".to_string(), |m| format!("(Some {}%N)", m)),
                     sf64(s.p.mws as f64), sf64(s.p.mwl as f64), sf64(s.p.mid), sf64(if s.lt == 4 { 1e-5f32 as f64 } else { 1e-5f64 }), cbool(s.lt == 4), cbool(repaired), cbool(model),
+                    clist(&log2tab, |(a, b)| format!("({}%Z, {}%Z)", a, b)),
                     tree_term(&f.tree), f.dangling,
                     clist(&f.iter, |(d, l)| format!("({}%N, {})", d, cbool(*l))), f.maxd, f.nleaves,
                     cvec64(&f.mean), cvec64(&f.imp), cmat64(&q), cvecn(&f.pred)
@@ -531,5 +711,5 @@ fn main() {
         }
     }
     out.bump_by("worst_accepted_entropy_decrease_error_1e9", (worst_entropy * 1e9) as u64);
-    out.finish("streams: A exhaustive 1-D datasets over values {0,1,2} x two classes (n<=3 all, n=4 every 5th); B random two-class Gini datasets from 6 families (lattice with duplicates/conflicts, blobs, noise, constant features, values closer than 1e-5, half-integer lattice) x weights (none/dyadic/with zeros) x parameter grid - full fit compared bit for bit with the Gallina model; C the same families with 2..6 classes, both criteria, usize/bool/String labels - exact checker + prediction/importance/iteration models; D neighbouring doubles at large magnitude. A case is non-trivial when the fitted tree has at least one split; distinct = distinct (data, labels, weights, parameters) hashes");
+    out.finish("streams: A exhaustive 1-D datasets over values {0,1,2} x two classes (n<=3 all, n=4 every 5th); B random two-class Gini datasets from 6 families (lattice with duplicates/conflicts, blobs, noise, constant features, values closer than 1e-5, half-integer lattice) x weights (none/dyadic/with zeros) x parameter grid; C the same families with 2..6 classes, both criteria, usize/offset usize/bool/String/decimal String/Option<usize> labels; D neighbouring doubles at large magnitude; E f32 features; F 3..6 classes with full-mantissa sample weights (f32 weight sums round). For every case: full fit compared bit for bit with the Gallina model (entropy: f32::log2 values passed as a table checked against interval enclosures) + exact checker + prediction/importance/iteration models. A case is non-trivial when the fitted tree has at least one split; distinct = distinct (data, labels, weights, parameters) hashes");
 }
